@@ -2867,6 +2867,12 @@ func (uconn *UConn) ApplyPreset(p *ClientHelloSpec) error {
 				ext.ServerName = string(ech.config.PublicName)
 			}
 		case *UtlsGREASEExtension:
+			// This and the following cases write values drawn for this connection
+			// into the extension: work on a copy, so that the caller's spec can be
+			// applied to further connections (see KeyShareExtension below).
+			c := *ext
+			ext = &c
+			uconn.Extensions[i] = ext
 			switch grease_extensions_seen {
 			case 0:
 				ext.Value = GetBoringGREASEValue(uconn.greaseSeed, ssl_grease_extension1)
@@ -2878,6 +2884,8 @@ func (uconn *UConn) ApplyPreset(p *ClientHelloSpec) error {
 			}
 			grease_extensions_seen += 1
 		case *SupportedCurvesExtension:
+			ext = &SupportedCurvesExtension{Curves: append([]CurveID(nil), ext.Curves...)}
+			uconn.Extensions[i] = ext
 			for i := range ext.Curves {
 				if isGREASEUint16(uint16(ext.Curves[i])) {
 					ext.Curves[i] = CurveID(GetBoringGREASEValue(uconn.greaseSeed, ssl_grease_group))
@@ -2947,6 +2955,8 @@ func (uconn *UConn) ApplyPreset(p *ClientHelloSpec) error {
 				}
 			}
 		case *SupportedVersionsExtension:
+			ext = &SupportedVersionsExtension{Versions: append([]uint16(nil), ext.Versions...)}
+			uconn.Extensions[i] = ext
 			for i := range ext.Versions {
 				if isGREASEUint16(ext.Versions[i]) { // just in case the user set a GREASE value instead of unGREASEd
 					ext.Versions[i] = GetBoringGREASEValue(uconn.greaseSeed, ssl_grease_version)
@@ -2956,6 +2966,17 @@ func (uconn *UConn) ApplyPreset(p *ClientHelloSpec) error {
 			haveNPN = true
 		case *ExtendedMasterSecretExtension:
 			haveEMS = true
+		case *GREASEEncryptedClientHelloExtension:
+			// config id, key and payload are drawn once per extension object
+			uconn.Extensions[i] = &GREASEEncryptedClientHelloExtension{
+				CandidateCipherSuites: ext.CandidateCipherSuites,
+				CandidateConfigIds:    ext.CandidateConfigIds,
+				EncapsulatedKey:       ext.EncapsulatedKey,
+				CandidatePayloadLens:  ext.CandidatePayloadLens,
+			}
+		case *UtlsPaddingExtension:
+			c := *ext
+			uconn.Extensions[i] = &c
 		case *SessionTicketExtension:
 			if !ext.IsInitialized() {
 				// The session this connection may attach belongs to the connection,
